@@ -42,14 +42,14 @@ func (a *Assignment) Evaluate(dc *context.DataContext, Vars map[string]reflect.V
 	if a.MathExpression != nil {
 		mv, err = a.MathExpression.Evaluate(dc, Vars)
 		if err != nil {
-			return reflect.ValueOf(nil), err
+			return reflect.ValueOf(nil), errors.New(fmt.Sprintf("line %d, column %d, code: %s, %+v", a.LineNum, a.Column, a.Code, err))
 		}
 	}
 
 	if a.Expression != nil {
 		mv, err = a.Expression.Evaluate(dc, Vars)
 		if err != nil {
-			return reflect.ValueOf(nil), err
+			return reflect.ValueOf(nil), errors.New(fmt.Sprintf("line %d, column %d, code: %s, %+v", a.LineNum, a.Column, a.Code, err))
 		}
 	}
 
